@@ -96,7 +96,7 @@ def run(ctx):
         jobs.append(job)
 
     # A. the whole matrix, each combination on keys of its class chosen by the seed
-    per = 1 if quick else 3
+    per = 1 if quick else 4
     for x in opts:
         ks = bytype[x["o"]["type"]]
         for kid in rnd.sample(ks, min(per, len(ks))):
@@ -119,13 +119,15 @@ def run(ctx):
                 add(c["id"], o, why="key sweep")
     # C. every protection scheme with affordable parameters (opened by the specification), and with the documented defaults (structure)
     targets = [("rsa512_shortd", "RSA"), ("P-256_yodd", "WsSsh"), ("Ed25519_xodd", "EdSsh"), ("dsa1024_seed", "DSA")]
+    if not quick:
+        targets += [("rsa1024_hi", "RSA"), ("P-521_x0", "WsSsh"), ("P-224_d0", "Ws"), ("Ed448_y0", "Ed"), ("Curve25519_x0", "Mt"), ("dsa2048", "DSA")]
     for i, (name, req) in enumerate(pool):
         for j, (kid, typ) in enumerate(targets):
             if quick and (i + j) % 2:
                 continue
-            fmt = "DER" if (i + j) % 3 else "PEM"
-            o = {"type": typ, "priv": True, "format": fmt, "pkcs": "pkcs8", "prot": "valid", "pp": typ != "DSA", "compress": False, "pass": "some"}
-            add(kid, o, scheme=(name, req), pp=small_params(req, rnd, not quick) if typ != "DSA" else None, more_wrong=True, why="protection sweep")
+            for fmt in (["DER" if (i + j) % 3 else "PEM"] if quick or j >= 4 else ["DER", "PEM"]):
+                o = {"type": typ, "priv": True, "format": fmt, "pkcs": "pkcs8", "prot": "valid", "pp": typ != "DSA", "compress": False, "pass": "some"}
+                add(kid, o, scheme=(name, req), pp=small_params(req, rnd, not quick) if typ != "DSA" else None, more_wrong=True, why="protection sweep")
         if not quick or i % 3 == 0:
             o = {"type": "WsSsh", "priv": True, "format": "DER", "pkcs": "pkcs8", "prot": "valid", "pp": False, "compress": False, "pass": "some"}
             add("P-384_seed", o, scheme=(name, req), why="protection sweep, default parameters")
